@@ -7,9 +7,11 @@ correspondence of harness/props/C11.py).  Helper lemmas: Proofs/Registers.lean.
 import SpsdkVerif.Model.Registers
 import SpsdkVerif.Proofs.Registers
 import SpsdkVerif.Proofs.RegistersCfg
+import SpsdkVerif.Proofs.RegistersGen
+import SpsdkVerif.Generated.RegArith
 
 namespace SpsdkVerif.C11
-open SpsdkVerif SpsdkVerif.Regs SpsdkVerif.Misc
+open SpsdkVerif SpsdkVerif.Regs SpsdkVerif.Misc SpsdkVerif.Generated
 
 /-! ## well-formedness of a layout (explicit, decidable on concrete layouts) -/
 
@@ -701,5 +703,113 @@ example : EntryOK [exCfgReg] (.top 0, .fields [(0, .num 4), (1, .num 3), (2, .en
     cases hi
     simp at hr
     subst hr; rfl
+
+/-! # Generated part: the integer arithmetic of spsdk/utils/registers.py as the source has it NOW
+
+`Generated/RegArith.lean` is re-translated from the AST on every run (tools/extract/gen_C11.py): `self.width`, `self.offset`, the
+value read from the parent, the config processor … are explicit parameters, Python-int semantics (`& | ^ ~` two's complement).
+The theorems below hold for ALL natural-number arguments and say that the hand model computes exactly this arithmetic, so every
+theorem above speaks about the mask / shift / comparison / bit-position formulas of the current source.  A changed formula breaks
+one of them directly.  (Proofs: Proofs/RegistersGen.lean; they normalise both sides to bits, not to a particular shape.) -/
+
+/-- `ShiftRightConfigProcessor.pre_process / post_process / width_update`, and the base class (identity) -/
+theorem gen_processors (s v : Nat) :
+    RegArith.srPre s v = ((v >>> s : Nat) : Int) ∧ RegArith.srPost s v = ((v <<< s : Nat) : Int) ∧
+    RegArith.srWidth s v = ((v + s : Nat) : Int) ∧
+    RegArith.nopPre v = v ∧ RegArith.nopPost v = v ∧ RegArith.nopWidth v = v ∧
+    RegArith.bfConfigWidth v (RegArith.srWidth s) = ((v + s : Nat) : Int) :=
+  ⟨srPre_eq s v, srPost_eq s v, srWidth_eq s v, (nop_eq v).1, (nop_eq v).2.1, (nop_eq v).2.2, bfConfigWidth_eq v s⟩
+
+/-- `RegsBitField.get_value`: shift by the offset, mask `(1 << width) - 1`, post-process -/
+theorem gen_bitfield_get (rv off w s : Nat) :
+    RegArith.bfGet rv off w (RegArith.srPost s) = ((((rv >>> off) &&& mask w) <<< s : Nat) : Int) ∧
+    RegArith.bfGet rv off w RegArith.nopPost = (((rv >>> off) &&& mask w : Nat) : Int) :=
+  ⟨bfGet_eq rv off w s, bfGet_nop_eq rv off w⟩
+
+/-- `RegsBitField.set_value`: pre-process unless `no_preprocess`, refuse unless `0 <= v < 1 << width`, clear-and-insert -/
+theorem gen_bitfield_set (v rv off w s : Nat) (noPre : Bool) :
+    RegArith.bfSet v noPre rv off w (RegArith.srPre s) =
+      (if (if noPre then v else v >>> s) ≥ 2 ^ w then .error .spsdk
+       else .ok ((insertBits rv off w (if noPre then v else v >>> s) : Nat) : Int)) :=
+  bfSet_eq v rv off w s noPre
+
+/-- the hand model's `fieldGet` / `fieldSet` ARE the generated arithmetic around `Reg.get` / `Reg.set` (any register) -/
+theorem gen_fieldGet (r : Reg) (f : Field) :
+    fieldGet r f = (match r.get false with
+      | .error e => .error e
+      | .ok rv => .ok (RegArith.bfGet rv f.offset f.width (RegArith.srPost f.shift)).toNat) :=
+  fieldGet_gen r f
+
+theorem gen_fieldSet (r : Reg) (f : Field) (v : Nat) (raw noPre : Bool) :
+    fieldSet r f v raw noPre = (match r.get raw with
+      | .ok rv => (match RegArith.bfSet v noPre rv f.offset f.width (RegArith.srPre f.shift) with
+        | .error e => .error e
+        | .ok x => r.set x.toNat raw)
+      | .error e => (match RegArith.bfSet v noPre 0 f.offset f.width (RegArith.srPre f.shift) with
+        | .error e' => .error e'
+        | .ok _ => .error e)) :=
+  fieldSet_gen r f v raw noPre
+
+/-- `Register.set_value`: the range guard (`0 <= value < 1 << width`, negative values included) is the model's rejection -/
+theorem gen_register_guard (r : Reg) (alts : List Nat) (v n : Nat) (raw : Bool) :
+    RegArith.regSetGuard v r.width = (if v < 2 ^ r.width then .ok true else .error .spsdk) ∧
+    RegArith.regSetGuard (Int.negSucc n) r.width = .error .spsdk ∧
+    (RegArith.regSetGuard v r.width = .error .spsdk →
+      r.set v raw = .error .spsdk ∧ r.setAlt alts v raw = .error .spsdk) := by
+  refine ⟨regSetGuard_eq v r.width, regSetGuard_neg n r.width, ?_⟩
+  intro h
+  rw [regSetGuard_eq] at h
+  have hv : 2 ^ r.width ≤ v := by
+    rcases Nat.lt_or_ge v (2 ^ r.width) with h' | h'
+    · rw [if_pos h'] at h; cases h
+    · exact h'
+  exact ⟨set_reject r v raw hv, setAlt_reject r alts v raw hv⟩
+
+/-- the byte reversal: condition `not raw and reverse`, on `alt_width // 8` bytes, with opposite byte orders (set and get) -/
+theorem gen_reverse (raw rev : Bool) (aw w : Nat) :
+    RegArith.regSetSwapCond raw rev = (!raw && rev) ∧ RegArith.regGetSwapCond raw rev = (!raw && rev) ∧
+    RegArith.regSetSwapBytes aw w = ((aw / 8 : Nat) : Int) ∧ RegArith.regGetSwapBytes aw w = ((aw / 8 : Nat) : Int) ∧
+    RegArith.regSetSwaps = true ∧ RegArith.regGetSwapsBig = true ∧ RegArith.regGetSwapsLittle = true :=
+  ⟨(swapCond_eq raw rev).1, (swapCond_eq raw rev).2, (swapBytes_eq aw w).1, (swapBytes_eq aw w).2, swaps_eq.1, swaps_eq.2.1, swaps_eq.2.2⟩
+
+/-- grouped registers, write: `alt_width // sub_width` sub-registers, the one at 0-based position `k` gets
+    `(value >> bit_pos) & ((1 << sub_width) - 1)` with the bit position of the model (`subPosW`, normal / reversed order) -/
+theorem gen_group_write (r : Reg) (v aw k : Nat) :
+    RegArith.subCount aw r.subW = ((aw / r.subW : Nat) : Int) ∧
+    RegArith.subValue v aw r.subW k r.revSubs = (((v >>> subPosW r aw k) &&& mask r.subW : Nat) : Int) ∧
+    distributeW r aw v = (List.range r.subs.length).map (fun (i : Nat) =>
+      if ((i : Nat) : Int) < RegArith.subCount aw r.subW then (RegArith.subValue v aw r.subW i r.revSubs).toNat
+      else r.subs.getD i 0) :=
+  ⟨subCount_eq aw r.subW, subValue_eq r v aw k, distributeW_gen r aw v⟩
+
+/-- grouped registers, read: the model's `assemble` is the generated loop (`value |= sub << bit_pos` from 0) -/
+theorem gen_group_read (r : Reg) (acc sv k : Nat) :
+    RegArith.asmInit = 0 ∧
+    RegArith.asmStep acc sv r.width r.subW k r.revSubs = ((acc ||| (sv <<< subPos r k) : Nat) : Int) ∧
+    ((assemble r : Nat) : Int) = (List.range r.subs.length).foldl
+      (fun acc (i : Nat) => RegArith.asmStep acc (r.subs.getD i 0 : Nat) r.width r.subW i r.revSubs) RegArith.asmInit :=
+  ⟨asmInit_eq, asmStep_eq r acc sv k, assemble_gen r⟩
+
+/-- `Register.get_alt_width`: the list is sorted ascending first, the byte count is `get_bytes_cnt_of_int(value, align_to_2n=False)`
+    without `byte_cnt`, the first fitting (`cnt <= alt // 8`) element wins, else the width; the model's `altWidth` is that for
+    EVERY list (it does not depend on the order) -/
+theorem gen_alt_width (w v : Nat) (alts sorted : List Nat) (hp : alts.Perm sorted) (hs : sorted.Pairwise (· ≤ ·)) :
+    RegArith.altSorted = true ∧ RegArith.altCntAlign = false ∧ RegArith.altCntByteCnt = false ∧
+    RegArith.getAltWidth w (byteCnt v) (sorted.map (fun (a : Nat) => (a : Int))) = ((altWidth alts w v : Nat) : Int) := by
+  refine ⟨altFlags_eq.1, altFlags_eq.2.1, altFlags_eq.2.2, ?_⟩
+  rw [getAltWidth_eq w v sorted hs, altWidth_perm alts sorted w v hp]
+
+/-- `Register.get_reset_value`: the model's `resetValue` is the generated fold -/
+theorem gen_reset_value (r : Reg) :
+    ((r.resetValue : Nat) : Int) = r.fields.foldl
+      (fun acc f => RegArith.resetOr acc f.reset f.offset f.width) (r.resetRaw : Int) :=
+  resetValue_gen r
+
+/-- non-vacuity / sanity of the generated part on concrete numbers (evaluated from the generated definitions) -/
+example : RegArith.bfSet 0xF0 false 0xA5A50000 8 4 (RegArith.srPre 4) = .ok 0xA5A50F00 := by decide
+example : RegArith.bfSet 16 true 0 0 4 RegArith.nopPre = .error .spsdk := by decide
+example : RegArith.bfSet (-1) true 0 0 4 RegArith.nopPre = .error .spsdk := by decide
+example : RegArith.subValue 0x1111111122222222 64 32 0 true = 0x11111111 := by decide
+example : RegArith.getAltWidth 384 33 [256] = 384 ∧ RegArith.getAltWidth 384 32 [256] = 256 ∧ RegArith.getAltWidth 384 1 [] = 384 := by decide
 
 end SpsdkVerif.C11
